@@ -24,6 +24,7 @@ CFG = dict(
         "argument-shape stream: echoes are compared by class (concrete value / host wrapper / interp.valueInterface / panic); the plainest shape's echo in the same interpreter is recorded with each mismatch",
         "composite literals of host-declared named types: slice/array element positions are re-computed by Y (lit_indexes) on every case; map and struct literals and all forms (variable, conversion from a script type, nested) are compared behaviourally with the literal evaluated natively",
         "result placement with captured variables (closure / pointer taken before a := re-declaration or = of a multi-result host call): compared behaviourally with Go's rule and with the same statement calling a script function; not modelled in Coq",
+        "host-declared func types (stream F: 10 positions x 8 kinds of function expression, consumed in the script, through the host method, by a host function and natively): compared behaviourally with the function's own results; Y only says at which positions a declared function's name is wrapped (y_functype_wraps), region cells are pinned to the panic class",
         "script-side observation uses strconv/math host calls as trusted infrastructure (also used by the in-script oracle)",
     ],
     harness_timeout=2400,
